@@ -7,7 +7,8 @@ Definition is_crash (o : outcome) : bool := match o with Crash _ => true | _ => 
 Lemma cfg_safe_parts c : cfg_safe c = true ->
   (exists cl, c_ws_guard c = Some cl) /\ handler_ok (c_re_handler c) = true /\ handler_ok (c_str_handler c) = true
   /\ handler_ok (c_nomatch_handler c) = true /\ handler_ok (c_keyerror_handler c) = true
-  /\ c_ugroup_guard c = true /\ (exists cl, c_alias_guard c = Some cl) /\ c_mmm_getitem c = true.
+  /\ c_ugroup_guard c = true /\ (exists cl, c_alias_guard c = Some cl) /\ c_mmm_getitem c = true
+  /\ c_contains_catches c = true /\ c_ruletype_by_class c = true.
 Proof.
   unfold cfg_safe. intro H.
   repeat (apply andb_true_iff in H; destruct H as [H ?]).
@@ -41,8 +42,8 @@ Qed.
 
 Lemma step_no_crash c o attrs e : cfg_safe c = true -> is_crash (snd (step c o attrs e)) = false.
 Proof.
-  intro Hs. destruct (cfg_safe_parts c Hs) as (Hws & Hre & Hstr & _ & _ & Hug & _ & _).
-  destruct e as [|ps|s|s|cls|op hm onr|a op hm|br]; cbn [step snd].
+  intro Hs. destruct (cfg_safe_parts c Hs) as (Hws & Hre & Hstr & _ & _ & Hug & _ & _ & _ & _).
+  destruct e as [|ps|s|s|cls|op hm onr|a op hm|br bm]; cbn [step snd].
   - reflexivity.
   - apply check_params_no_crash; exact Hws.
   - unfold visit_str_match. destruct (o_decode o s); try reflexivity. apply handled_ok; exact Hstr.
@@ -54,7 +55,7 @@ Proof.
   - unfold visit_assignment.
     destruct (mem_str a attrs && match op with OpOpt => true | _ => false end); [reflexivity|].
     destruct (hm && match op with OpOpt | OpEq => true | _ => false end); reflexivity.
-  - destruct br; reflexivity.
+  - destruct br; [reflexivity|]. destruct bm; [|reflexivity]. destruct (c_boolmany_check c); reflexivity.
 Qed.
 
 Lemma run_events_no_crash c o es : cfg_safe c = true -> forall attrs, is_crash (run_events c o attrs es) = false.
@@ -76,27 +77,52 @@ Proof.
     left. apply str_eqb_eq. exact En.
 Qed.
 
-Lemma lookup_alias_name c rs n t : lookup_rule c rs n = LAlias t -> In n (map r_name rs).
+Lemma lookup_alias_name c o t n tg : lookup_rule c o t n = LAlias tg -> In n (map r_name (t_rules t)).
 Proof.
-  unfold lookup_rule. destruct (last_def n rs) as [r|] eqn:E.
-  - intros _. exact (last_def_name n rs r E).
-  - destruct (mem_str n (c_base_names c)); discriminate.
+  unfold lookup_rule. destruct (split_dot n) as [[ns nm]|].
+  - destruct (qualified c o (t_stmts t) ns nm); [discriminate | destruct (c_contains_catches c); discriminate | discriminate].
+  - destruct (last_def n (t_rules t)) as [r|] eqn:E.
+    + intros _. exact (last_def_name n (t_rules t) r E).
+    + destruct (mem_str n (c_base_names c)); discriminate.
+Qed.
+
+Lemma qualified_err_no_crash c o ss ns nm e : c_mmm_getitem c = true ->
+  qualified c o ss ns nm = QErr e -> is_crash e = false.
+Proof.
+  intro Hm. unfold qualified. destruct (lang_of ns ss) as [l|].
+  - destruct (o_ext o l nm) as [| | |found]; try discriminate.
+    + intro H. injection H as <-. reflexivity.
+    + rewrite Hm. destruct found; discriminate.
+  - destruct (str_eqb ns s_base && mem_str nm (c_base_names c)); discriminate.
+Qed.
+
+Lemma lookup_err_no_crash c o t n e : c_mmm_getitem c = true -> c_contains_catches c = true ->
+  lookup_rule c o t n = LErr e -> is_crash e = false.
+Proof.
+  intros Hm Hc. unfold lookup_rule. destruct (split_dot n) as [[ns nm]|].
+  - destruct (qualified c o (t_stmts t) ns nm) as [f| |e'] eqn:Eq; try discriminate.
+    + rewrite Hc. discriminate.
+    + intro H. injection H as <-. exact (qualified_err_no_crash c o _ ns nm e' Hm Eq).
+  - destruct (last_def n (t_rules t)) as [r|].
+    + destruct (alias_of r); discriminate.
+    + destruct (mem_str n (c_base_names c)); discriminate.
 Qed.
 
 (* With the alias guard, following a reference needs at most one step per rule of the grammar:
    the chain holds distinct rule names. *)
-Lemma follow_no_crash c rs cl : c_alias_guard c = Some cl ->
-  forall fuel chain n, NoDup chain -> incl chain (map r_name rs) ->
-    fuel + length chain > length rs -> is_crash (follow c rs fuel chain n) = false.
+Lemma follow_no_crash c o t cl : c_alias_guard c = Some cl -> c_mmm_getitem c = true -> c_contains_catches c = true ->
+  forall fuel chain n, NoDup chain -> incl chain (map r_name (t_rules t)) ->
+    fuel + length chain > length (t_rules t) -> is_crash (follow c o t fuel chain n) = false.
 Proof.
-  intro Hg. induction fuel as [|f IH]; intros chain n Hnd Hincl Hlen.
+  intros Hg Hm Hc. induction fuel as [|f IH]; intros chain n Hnd Hincl Hlen.
   - exfalso. pose proof (NoDup_incl_length Hnd Hincl) as Hl. rewrite map_length in Hl. lia.
-  - cbn [follow]. destruct (lookup_rule c rs n) as [| |t] eqn:El; try reflexivity.
-    rewrite Hg. destruct (mem_str n chain) eqn:Em; [reflexivity|].
-    apply IH.
-    + constructor; [|exact Hnd]. intro Hin. apply mem_str_In in Hin. congruence.
-    + intros x [Hx|Hx]; [subst x; exact (lookup_alias_name c rs n t El) | exact (Hincl x Hx)].
-    + cbn [length]. lia.
+  - cbn [follow]. destruct (lookup_rule c o t n) as [| |tg|e] eqn:El; try reflexivity.
+    + rewrite Hg. destruct (mem_str n chain) eqn:Em; [reflexivity|].
+      apply IH.
+      * constructor; [|exact Hnd]. intro Hin. apply mem_str_In in Hin. congruence.
+      * intros x [Hx|Hx]; [subst x; exact (lookup_alias_name c o t n tg El) | exact (Hincl x Hx)].
+      * cbn [length]. lia.
+    + exact (lookup_err_no_crash c o t n e Hm Hc El).
 Qed.
 
 Lemma first_error_in l : first_error l = Ok \/ In (first_error l) l.
@@ -110,25 +136,29 @@ Proof.
   intro H. destruct (first_error_in l) as [E|E]; [rewrite E; reflexivity | exact (H _ E)].
 Qed.
 
-Lemma resolve_rule_refs_no_crash c rs fuel : cfg_safe c = true -> fuel > length rs ->
-  is_crash (resolve_rule_refs c fuel rs) = false.
+Lemma resolve_rule_refs_no_crash c o t fuel : cfg_safe c = true -> fuel > length (t_rules t) ->
+  is_crash (resolve_rule_refs c o fuel t) = false.
 Proof.
-  intros Hs Hf. destruct (cfg_safe_parts c Hs) as (_ & _ & _ & _ & _ & _ & [cl Hg] & _).
-  unfold resolve_rule_refs. apply first_error_no_crash. intros o Ho.
-  apply in_map_iff in Ho as [n [<- _]].
-  apply (follow_no_crash c rs cl Hg); [constructor | intros x [] | cbn [length]; lia].
+  intros Hs Hf. destruct (cfg_safe_parts c Hs) as (_ & _ & _ & _ & _ & _ & [cl Hg] & Hm & Hcc & _).
+  unfold resolve_rule_refs. apply first_error_no_crash. intros x Hx.
+  apply in_map_iff in Hx as [n [<- _]].
+  apply (follow_no_crash c o t cl Hg Hm Hcc); [constructor | intros x [] | cbn [length]; lia].
+Qed.
+
+Lemma determine_rule_types_no_crash c o t fuel : cfg_safe c = true -> determine_rule_types c o fuel t = Ok.
+Proof.
+  intro Hs. destruct (cfg_safe_parts c Hs) as (_ & _ & _ & _ & _ & _ & _ & _ & _ & Hr).
+  unfold determine_rule_types. rewrite Hr. reflexivity.
 Qed.
 
 (* ---------------------------------------------------------------- class references *)
 Lemma resolve_cls_name_no_crash c o t n : cfg_safe c = true -> is_crash (resolve_cls_name c o t n) = false.
 Proof.
-  intro Hs. destruct (cfg_safe_parts c Hs) as (_ & _ & _ & _ & Hk & _ & _ & Hm).
+  intro Hs. destruct (cfg_safe_parts c Hs) as (_ & _ & _ & _ & Hk & _ & _ & Hm & _ & _).
   pose proof (handled_ok (c_keyerror_handler c) WClsRef KKey KKey Hk) as Hh.
-  unfold resolve_cls_name. destruct (split_dot [] n) as [[ns nm]|].
-  - destruct (lang_of ns (t_stmts t)) as [l|].
-    + destruct (o_ext o l nm) as [| | |found]; try reflexivity; try exact Hh.
-      rewrite Hm. destruct found; [reflexivity | exact Hh].
-    + destruct (str_eqb ns s_base && mem_str nm (c_base_names c)); [reflexivity | exact Hh].
+  unfold resolve_cls_name. destruct (split_dot n) as [[ns nm]|].
+  - destruct (qualified c o (t_stmts t) ns nm) as [f| |e] eqn:Eq; [reflexivity | exact Hh |].
+    exact (qualified_err_no_crash c o _ ns nm e Hm Eq).
   - destruct (last_def n (t_rules t)); [reflexivity|].
     destruct (mem_str n (c_base_names c)); [reflexivity | exact Hh].
 Qed.
@@ -151,7 +181,8 @@ Proof.
   - cbn [has_import] in Hi. cbn [nrules] in Hf.
     apply seq_out_no_crash; [unfold visit_stmts; rewrite Hi; reflexivity|].
     apply seq_out_no_crash; [apply run_events_no_crash; exact Hs|].
-    apply seq_out_no_crash; [apply resolve_rule_refs_no_crash; assumption | apply resolve_cls_refs_no_crash; exact Hs].
+    apply seq_out_no_crash; [apply resolve_rule_refs_no_crash; assumption|].
+    rewrite (determine_rule_types_no_crash c o t fuel Hs). cbn [seq_out]. apply resolve_cls_refs_no_crash; exact Hs.
 Qed.
 
 Corollary front_never_crashes c o fuel g k :
@@ -161,20 +192,20 @@ Proof.
 Qed.
 
 (* the outcome does not depend on the recursion budget once it exceeds the number of rules *)
-Lemma follow_fuel_irrelevant c rs cl : c_alias_guard c = Some cl ->
-  forall f1 f2 chain n, NoDup chain -> incl chain (map r_name rs) ->
-    f1 + length chain > length rs -> f2 + length chain > length rs ->
-    follow c rs f1 chain n = follow c rs f2 chain n.
+Lemma follow_fuel_irrelevant c o t cl : c_alias_guard c = Some cl ->
+  forall f1 f2 chain n, NoDup chain -> incl chain (map r_name (t_rules t)) ->
+    f1 + length chain > length (t_rules t) -> f2 + length chain > length (t_rules t) ->
+    follow c o t f1 chain n = follow c o t f2 chain n.
 Proof.
   intro Hg. induction f1 as [|f1 IH]; intros f2 chain n Hnd Hincl H1 H2.
   - exfalso. pose proof (NoDup_incl_length Hnd Hincl) as Hl. rewrite map_length in Hl. lia.
   - destruct f2 as [|f2].
     + exfalso. pose proof (NoDup_incl_length Hnd Hincl) as Hl. rewrite map_length in Hl. lia.
-    + cbn [follow]. destruct (lookup_rule c rs n) as [| |t] eqn:El; try reflexivity.
+    + cbn [follow]. destruct (lookup_rule c o t n) as [| |tg|e] eqn:El; try reflexivity.
       rewrite Hg. destruct (mem_str n chain) eqn:Em; [reflexivity|].
       apply IH.
       * constructor; [|exact Hnd]. intro Hin. apply mem_str_In in Hin. congruence.
-      * intros x [Hx|Hx]; [subst x; exact (lookup_alias_name c rs n t El) | exact (Hincl x Hx)].
+      * intros x [Hx|Hx]; [subst x; exact (lookup_alias_name c o t n tg El) | exact (Hincl x Hx)].
       * cbn [length]. lia.
       * cbn [length]. lia.
 Qed.
@@ -184,14 +215,15 @@ Theorem front_fuel_irrelevant c o g f1 f2 :
 Proof.
   intros Hs H1 H2. destruct g as [|t]; [reflexivity|]. cbn [front nrules] in *.
   destruct (cfg_safe_parts c Hs) as (_ & _ & _ & _ & _ & _ & [cl Hg] & _).
+  rewrite !(determine_rule_types_no_crash c o t _ Hs).
   f_equal. f_equal. f_equal. unfold resolve_rule_refs. f_equal.
   apply map_ext. intro n.
-  apply (follow_fuel_irrelevant c (t_rules t) cl Hg); [constructor | intros x [] | cbn [length]; lia | cbn [length]; lia].
+  apply (follow_fuel_irrelevant c o t cl Hg); [constructor | intros x [] | cbn [length]; lia | cbn [length]; lia].
 Qed.
 
 (* Without the guard a self-alias exhausts every recursion budget. *)
-Lemma follow_self_alias_crashes c rs n : c_alias_guard c = None -> lookup_rule c rs n = LAlias n ->
-  forall fuel chain, follow c rs fuel chain n = Crash KRecursion.
+Lemma follow_self_alias_crashes c o t n : c_alias_guard c = None -> lookup_rule c o t n = LAlias n ->
+  forall fuel chain, follow c o t fuel chain n = Crash KRecursion.
 Proof.
   intros Hg Hl. induction fuel as [|f IH]; intro chain; [reflexivity|].
   cbn [follow]. rewrite Hl, Hg. apply IH.
@@ -222,15 +254,29 @@ Definition g_textx := gram [SReference s_textx None]
 Definition g_import := gram [SImport] [rule1 nA None (EMatch false (SStr [97]%N)) None].           (* import foo  A: 'a'; *)
 
 
+(* qualified references (rule references may be fully qualified names) *)
+Definition s_lang : list N := [108]%N.                                                              (* l *)
+Definition s_Thing : list N := [84]%N.                                                             (* T *)
+Definition lang_found : oracles := {| o_regex := fun _ => true; o_decode := fun _ => DecOk; o_ext := fun _ _ => ExtFound |}.
+Definition g_qualified_alias := gram [SReference s_lang None]
+  [rule1 nA None (ERef false (s_lang ++ [46] ++ s_Thing)%N) None].                                 (* reference l  A: l.T;  *)
+Definition g_unknown_ns := gram []
+  [rule1 nA None (EAsg [120]%N OpEq (ARef (RRule [116;46;73]%N)) None) None].                       (* A: x=t.I;            *)
+Definition g_boolmany := gram []
+  [{| r_name := nA; r_params := None;
+      r_body := [[RX (EAsg [99]%N OpOpt (ARef (RRule nA)) None) None false];
+                 [RX (ERef false nA) None false; RX (EAsg [99]%N OpStar (ARef (RRule nA)) None) None false]] |}]. (* A: c?=A | A c*=A; *)
+
 Lemma pinned_self_alias_crashes : forall fuel, front pinned_cfg all_ok fuel g_self = Crash KRecursion.
 Proof.
   intro fuel. unfold front, g_self, gram. cbn [t_stmts t_rules].
   replace (visit_stmts []) with Ok by reflexivity.
   replace (run_events pinned_cfg all_ok [] _) with Ok by (vm_compute; reflexivity).
-  cbn [seq_out]. unfold resolve_rule_refs.
+  cbn [seq_out]. unfold resolve_rule_refs. cbn [t_rules].
   replace (all_refs _) with [nA; nA] by (vm_compute; reflexivity).
   cbn [map first_error].
-  rewrite (follow_self_alias_crashes pinned_cfg [rule1 nA None (ERef false nA) None] nA eq_refl eq_refl fuel []). reflexivity.
+  rewrite (follow_self_alias_crashes pinned_cfg all_ok {| t_stmts := []; t_rules := [rule1 nA None (ERef false nA) None] |} nA eq_refl eq_refl fuel []).
+  reflexivity.
 Qed.
 
 (* ---------------------------------------------------------------- the alias guard is conservative *)
@@ -239,59 +285,76 @@ Definition with_alias_guard (c : cfg) (g : option txclass) : cfg :=
   {| c_params := c_params c; c_param_cls := c_param_cls c; c_split_cls := c_split_cls c; c_ws_guard := c_ws_guard c;
      c_re_handler := c_re_handler c; c_str_handler := c_str_handler c; c_nomatch_handler := c_nomatch_handler c;
      c_keyerror_handler := c_keyerror_handler c; c_ugroup_guard := c_ugroup_guard c; c_alias_guard := g;
-     c_mmm_getitem := c_mmm_getitem c; c_base_names := c_base_names c |}.
+     c_mmm_getitem := c_mmm_getitem c; c_contains_catches := c_contains_catches c;
+     c_ruletype_by_class := c_ruletype_by_class c; c_boolmany_check := c_boolmany_check c;
+     c_base_names := c_base_names c |}.
 
-Lemma lookup_with_guard c g rs n : lookup_rule (with_alias_guard c g) rs n = lookup_rule c rs n.
+(* ... with another answer to "does __contains__ catch KeyError" / "is the alias target class taken from the rule" *)
+Definition with_contains (c : cfg) (b : bool) : cfg :=
+  {| c_params := c_params c; c_param_cls := c_param_cls c; c_split_cls := c_split_cls c; c_ws_guard := c_ws_guard c;
+     c_re_handler := c_re_handler c; c_str_handler := c_str_handler c; c_nomatch_handler := c_nomatch_handler c;
+     c_keyerror_handler := c_keyerror_handler c; c_ugroup_guard := c_ugroup_guard c; c_alias_guard := c_alias_guard c;
+     c_mmm_getitem := c_mmm_getitem c; c_contains_catches := b;
+     c_ruletype_by_class := c_ruletype_by_class c; c_boolmany_check := c_boolmany_check c;
+     c_base_names := c_base_names c |}.
+Definition with_ruletype_by_class (c : cfg) (b : bool) : cfg :=
+  {| c_params := c_params c; c_param_cls := c_param_cls c; c_split_cls := c_split_cls c; c_ws_guard := c_ws_guard c;
+     c_re_handler := c_re_handler c; c_str_handler := c_str_handler c; c_nomatch_handler := c_nomatch_handler c;
+     c_keyerror_handler := c_keyerror_handler c; c_ugroup_guard := c_ugroup_guard c; c_alias_guard := c_alias_guard c;
+     c_mmm_getitem := c_mmm_getitem c; c_contains_catches := c_contains_catches c;
+     c_ruletype_by_class := b; c_boolmany_check := c_boolmany_check c;
+     c_base_names := c_base_names c |}.
+
+Lemma lookup_with_guard c g o t n : lookup_rule (with_alias_guard c g) o t n = lookup_rule c o t n.
 Proof. reflexivity. Qed.
 
 (* a set of alias rules closed under "target of" : the unguarded resolution never leaves it *)
-Lemma follow_diverges c rs (S : list (list N)) : c_alias_guard c = None ->
-  (forall m, In m S -> exists t, lookup_rule c rs m = LAlias t /\ In t S) ->
-  forall fuel chain m, In m S -> follow c rs fuel chain m = Crash KRecursion.
+Lemma follow_diverges c o t (S : list (list N)) : c_alias_guard c = None ->
+  (forall m, In m S -> exists tg, lookup_rule c o t m = LAlias tg /\ In tg S) ->
+  forall fuel chain m, In m S -> follow c o t fuel chain m = Crash KRecursion.
 Proof.
   intros Hg Hclosed. induction fuel as [|f IH]; intros chain m Hm; [reflexivity|].
-  cbn [follow]. destruct (Hclosed m Hm) as [t [Hl Ht]]. rewrite Hl, Hg. apply IH. exact Ht.
+  cbn [follow]. destruct (Hclosed m Hm) as [tg [Hl Ht]]. rewrite Hl, Hg. apply IH. exact Ht.
 Qed.
 
 (* chain = the alias rules being followed, most recent first; each one's target is the next more recent
    one, the head's target is the name being looked up *)
-Fixpoint chain_ok (c : cfg) (rs : list rule) (chain : list (list N)) (cur : list N) : Prop :=
+Fixpoint chain_ok (c : cfg) (o : oracles) (t : tree) (chain : list (list N)) (cur : list N) : Prop :=
   match chain with
   | [] => True
-  | x :: rest => lookup_rule c rs x = LAlias cur /\ chain_ok c rs rest x
+  | x :: rest => lookup_rule c o t x = LAlias cur /\ chain_ok c o t rest x
   end.
 
-Lemma chain_segment_closed c rs : forall p cur n rest,
-  chain_ok c rs (p ++ n :: rest) cur ->
-  forall m, In m (p ++ [n]) -> exists t, lookup_rule c rs m = LAlias t /\ (In t (p ++ [n]) \/ t = cur).
+Lemma chain_segment_closed c o t : forall p cur n rest,
+  chain_ok c o t (p ++ n :: rest) cur ->
+  forall m, In m (p ++ [n]) -> exists tg, lookup_rule c o t m = LAlias tg /\ (In tg (p ++ [n]) \/ tg = cur).
 Proof.
   induction p as [|x p IH]; intros cur n rest Hok m Hm.
   - cbn in Hok, Hm. destruct Hok as [Hl _]. destruct Hm as [ <- | [] ]. exists cur. split; [exact Hl | right; reflexivity].
   - cbn [app chain_ok] in Hok. destruct Hok as [Hl Hrest]. cbn [app In] in Hm. destruct Hm as [ <- | Hm ].
     + exists cur. split; [exact Hl | right; reflexivity].
-    + destruct (IH x n rest Hrest m Hm) as [t [Ht [Hin | -> ]]].
-      * exists t. split; [exact Ht | left; right; exact Hin].
+    + destruct (IH x n rest Hrest m Hm) as [tg [Ht [Hin | -> ]]].
+      * exists tg. split; [exact Ht | left; right; exact Hin].
       * exists x. split; [exact Ht | left; left; reflexivity].
 Qed.
 
-Lemma follow_guard_conservative c rs cl : c_alias_guard c = None ->
-  forall fuel chain n, chain_ok c rs chain n ->
-    follow c rs fuel chain n = Crash KRecursion
-    \/ follow c rs fuel chain n = follow (with_alias_guard c (Some cl)) rs fuel chain n.
+Lemma follow_guard_conservative c o t cl : c_alias_guard c = None ->
+  forall fuel chain n, chain_ok c o t chain n ->
+    follow c o t fuel chain n = Crash KRecursion
+    \/ follow c o t fuel chain n = follow (with_alias_guard c (Some cl)) o t fuel chain n.
 Proof.
   intro Hg. induction fuel as [|f IH]; intros chain n Hok; [left; reflexivity|].
-  cbn [follow]. rewrite lookup_with_guard. destruct (lookup_rule c rs n) as [| |t] eqn:El; try (right; reflexivity).
+  cbn [follow]. rewrite lookup_with_guard. destruct (lookup_rule c o t n) as [| |tg|e] eqn:El; try (right; reflexivity).
   rewrite Hg. cbn [c_alias_guard with_alias_guard].
   destruct (mem_str n chain) eqn:Em.
   - (* the guard fires: n is in its own chain, so the rules from n to the head of the chain form a cycle *)
     left. apply mem_str_In in Em. apply in_split in Em as [p [rest ->]].
-    apply (follow_diverges c rs (p ++ [n]) Hg).
-    + intros m Hm. destruct (chain_segment_closed c rs p n n rest Hok m Hm) as [t' [Ht' [Hin | -> ]]].
+    apply (follow_diverges c o t (p ++ [n]) Hg).
+    + intros m Hm. destruct (chain_segment_closed c o t p n n rest Hok m Hm) as [t' [Ht' [Hin | -> ]]].
       * exists t'. split; assumption.
       * exists n. split; [exact Ht' | apply in_or_app; right; left; reflexivity].
-    + (* the target t of n: n is in the segment, its target is in the segment by closedness *)
-      assert (Hn : In n (p ++ [n])) by (apply in_or_app; right; left; reflexivity).
-      destruct (chain_segment_closed c rs p n n rest Hok n Hn) as [t' [Ht' Hin]].
+    + assert (Hn : In n (p ++ [n])) by (apply in_or_app; right; left; reflexivity).
+      destruct (chain_segment_closed c o t p n n rest Hok n Hn) as [t' [Ht' Hin]].
       rewrite El in Ht'. injection Ht' as <-. destruct Hin as [Hin | -> ]; [exact Hin | apply in_or_app; right; left; reflexivity].
   - apply IH. cbn [chain_ok]. split; [exact El | exact Hok].
 Qed.
@@ -306,43 +369,38 @@ Qed.
 
 (* The repair changes the outcome of rule-reference resolution only where the unguarded code exhausts its
    recursion budget. *)
-Theorem resolve_guard_conservative c cl fuel rs : c_alias_guard c = None ->
-  resolve_rule_refs c fuel rs = Crash KRecursion
-  \/ resolve_rule_refs c fuel rs = resolve_rule_refs (with_alias_guard c (Some cl)) fuel rs.
+Theorem resolve_guard_conservative c cl o fuel t : c_alias_guard c = None ->
+  resolve_rule_refs c o fuel t = Crash KRecursion
+  \/ resolve_rule_refs c o fuel t = resolve_rule_refs (with_alias_guard c (Some cl)) o fuel t.
 Proof.
   intro Hg. unfold resolve_rule_refs. apply first_error_conservative.
-  induction (all_refs rs) as [|n l IH]; [constructor|].
+  induction (all_refs (t_rules t)) as [|n l IH]; [constructor|].
   cbn [map]. constructor; [|exact IH].
-  apply (follow_guard_conservative c rs cl Hg fuel [] n). exact I.
+  apply (follow_guard_conservative c o t cl Hg fuel [] n). exact I.
 Qed.
 
-Lemma pinned_is_unguarded_src : forall c, with_alias_guard c (c_alias_guard c) = c.
-Proof. intros []. reflexivity. Qed.
-
-Theorem alias_repair_conservative c cl fuel rs : c_alias_guard c = Some cl ->
-  resolve_rule_refs (with_alias_guard c None) fuel rs = Crash KRecursion
-  \/ resolve_rule_refs (with_alias_guard c None) fuel rs = resolve_rule_refs c fuel rs.
+Theorem alias_repair_conservative c cl o fuel t : c_alias_guard c = Some cl ->
+  resolve_rule_refs (with_alias_guard c None) o fuel t = Crash KRecursion
+  \/ resolve_rule_refs (with_alias_guard c None) o fuel t = resolve_rule_refs c o fuel t.
 Proof.
-  intro H. pose proof (resolve_guard_conservative (with_alias_guard c None) cl fuel rs eq_refl) as P.
+  intro H. pose proof (resolve_guard_conservative (with_alias_guard c None) cl o fuel t eq_refl) as P.
   assert (E : with_alias_guard (with_alias_guard c None) (Some cl) = c).
   { destruct c. cbn in H. subst. reflexivity. }
   rewrite E in P. exact P.
 Qed.
 
-(* and where the guard does fire, the unguarded code fails for EVERY budget: a self-contained statement
-   for chains that start from a direct reference *)
-Theorem unguarded_never_recovers c rs cl : c_alias_guard c = None ->
-  forall fuel n, follow c rs fuel [] n <> Crash KRecursion ->
-  forall fuel', fuel' >= fuel -> follow c rs fuel' [] n = follow (with_alias_guard c (Some cl)) rs fuel' [] n.
+Theorem unguarded_never_recovers c o t cl : c_alias_guard c = None ->
+  forall fuel n, follow c o t fuel [] n <> Crash KRecursion ->
+  forall fuel', fuel' >= fuel -> follow c o t fuel' [] n = follow (with_alias_guard c (Some cl)) o t fuel' [] n.
 Proof.
   intros Hg.
-  assert (mono : forall fuel chain n, follow c rs fuel chain n <> Crash KRecursion ->
-                 forall fuel', fuel' >= fuel -> forall chain', follow c rs fuel' chain' n = follow c rs fuel chain n).
+  assert (mono : forall fuel chain n, follow c o t fuel chain n <> Crash KRecursion ->
+                 forall fuel', fuel' >= fuel -> forall chain', follow c o t fuel' chain' n = follow c o t fuel chain n).
   { induction fuel as [|f IH]; intros chain n Hnc fuel' Hge chain'; [cbn in Hnc; congruence|].
     destruct fuel' as [|f']; [lia|]. cbn [follow] in *.
-    destruct (lookup_rule c rs n) as [| |t]; try reflexivity.
+    destruct (lookup_rule c o t n) as [| |tg|e]; try reflexivity.
     rewrite Hg in *. apply IH; [exact Hnc | lia]. }
   intros fuel n Hnc fuel' Hge.
-  destruct (follow_guard_conservative c rs cl Hg fuel' [] n I) as [Hc|He]; [|exact He].
+  destruct (follow_guard_conservative c o t cl Hg fuel' [] n I) as [Hc|He]; [|exact He].
   exfalso. apply Hnc. rewrite <- (mono fuel [] n Hnc fuel' Hge []). exact Hc.
 Qed.
